@@ -286,9 +286,14 @@ func c20Specs(tier string) []*engine.BFS[*slotState] {
 func C20(tier string) *engine.Report {
 	rep := engine.NewReport("C20", tier, "model_checking")
 	var tot engine.BFSTotals
+	deadline := engine.Cap(tier) // one wall-clock budget for the whole check
 	for _, sp := range c20Specs(tier) {
-		sp.Until = engine.Cap(tier)
-		tot.Add(sp.Name, sp.Run(), rep)
+		sp.Until = deadline
+		r := sp.Run()
+		if !r.Fixpoint {
+			r.Capped = true // this search is meant to reach a fixpoint; anything less is reported as not exhaustive
+		}
+		tot.Add(sp.Name, r, rep)
 	}
 	tot.Fill(rep, "reachable states of a real ByteBuffer + SlotSequencer (push any seq/len incl. duplicates and over capacity, pop any seq, reset) and of a ByteBuffer + bare SlotOffsetter, "+
 		"BFS to fixpoint; state = model list of parked packets + complete concrete sequencer/offsetter state by reflection; every pop compares SavedSlot(slot) with the bytes saved under that number, "+
